@@ -7,7 +7,7 @@
    - a fired timer whose item is still live holds the call, hence a Get that has to stop a
      timer never loses against the timer in such a run. *)
 From Coq Require Import ZArith List Bool Lia.
-From Verif Require Import Base.Wrap Gen.GenConsts Gen.GenFrame Model.RelayItems Spec.WireOk
+From Verif Require Import Base.Wrap Gen.GenConsts Gen.GenFrame Model.RelayItems Model.RelayCalm Spec.WireOk
   Proofs.RelayAssocP Proofs.RelayCoreP Proofs.RelayInv9P Proofs.RelayTimerP Proofs.RelayThmP Proofs.RelaySilentP
   Proofs.RelayWireP Proofs.RelayCalmP.
 Import ListNotations.
@@ -658,12 +658,6 @@ Record FInv (st : state) (h : held) : Prop := {
 
 Lemma FInv_init : FInv init [].
 Proof. constructor; cbn; intros; contradiction. Qed.
-
-Definition causal_step (st : state) (l : label) : bool :=
-  match l with
-  | LArrive d f _ => match kind_of f with Some _ => f_id f <? c_nextid (get_conn st d) | None => true end
-  | _ => true
-  end.
 
 Definition is_get (i : instr) : bool := match i with INcGet _ _ | IRcvGet _ => true | _ => false end.
 
